@@ -20,7 +20,8 @@ var rec = vh.NewRecorder("C05", "lockstep-streaming",
 	"backend responses of 1-50 chunks with sizes from {1,2,100,4095,4096,4097,32KiB,1MiB,4MiB} and pauses 0-50ms, chunked or "+
 		"Content-Length framed, produced in lock-step: the scripted backend emits chunk i+1 only after the fake proxy has observed every "+
 		"byte of chunk i in the agent's upload (decoded incrementally); a chunk not observed within 5s while the producer is idle, which "+
-		"turns up after the producer is released, is a confirmed violation; the agent runs in one of five configurations (default, session tracking, shim, banner, all); non-trivial = at least 2 chunks; distinct = SHA-256 of the case")
+		"turns up after the producer is released, is a confirmed violation; the agent runs in one of five configurations (default, session tracking, shim, banner, all); non-trivial = at least 2 chunks; distinct = SHA-256 of the case"+
+		" Later additions: five agent configurations (default, session tracking, websocket shim, banner, all) and text/html as well as octet-stream bodies.")
 
 func TestMain(m *testing.M) { vh.Main(m, rec) }
 
